@@ -100,7 +100,7 @@ Proof.
   intros m k Hm. unfold get_indent. destruct (is_compressed s).
   - exists m. split; [reflexivity | exact Hm].
   - exists N0. split; [|reflexivity].
-    change (10 :: spaces n) with ([10] ++ spaces n). rewrite run_from_app.
+    change (10 :: spaces (Nat.min n indent_cap)) with ([10] ++ spaces (Nat.min n indent_cap)). rewrite run_from_app.
     rewrite (r_nl m k Hm). apply s_spaces.
 Qed.
 
